@@ -633,11 +633,14 @@ def _extract_refs(
     all_refs: bool,
 ) -> Mapping[str, AnyType]:
     refs: Refs = {}
+    visited: Set[str] = set()
     for tp in types:
         conversion = None
         if isinstance(tp, tuple):
             tp, conversion = tp
-        builder.RefsExtractor(default_conversion, refs).visit_with_conv(tp, conversion)
+        builder.RefsExtractor(default_conversion, refs, visited).visit_with_conv(
+            tp, conversion
+        )
     filtr = (lambda count: True) if all_refs else (lambda count: count > 1)
     return {ref: tp for ref, (tp, count) in refs.items() if filtr(count)}
 
